@@ -34,6 +34,16 @@ def subst_expr(e, m):
         return SatAdd(subst_expr(e.a, m), subst_expr(e.b, m), e.cap)
     if isinstance(e, MinMax):
         return MinMax(e.which, subst_expr(e.a, m), subst_expr(e.b, m))
+    if isinstance(e, ClosureApp):
+        r = m.get(e.var)
+        if isinstance(r, str):
+            return ClosureApp(r, subst_expr(e.body, m), subst_expr(e.arg, m))
+        return ClosureApp(e.var, subst_expr(e.body, {k: v for k, v in m.items() if k != e.var}), subst_expr(e.arg, m))
+    if isinstance(e, MatchE):
+        r = m.get(e.var)
+        if isinstance(r, str):
+            return MatchE(subst_expr(e.scrut, m), e.k, subst_expr(e.e0, m), r, subst_expr(e.e1, m))
+        return MatchE(subst_expr(e.scrut, m), e.k, subst_expr(e.e0, m), e.var, subst_expr(e.e1, {k: v for k, v in m.items() if k != e.var}))
     if isinstance(e, LetIn):
         r = m.get(e.var)
         if isinstance(r, str):
@@ -80,6 +90,8 @@ def subst_item(it, m):
         return Neg(it.rel, [subst_arg(a, m) for a in it.args])
     if isinstance(it, If):
         return If(subst_expr(it.e, m))
+    if isinstance(it, LetTup):
+        return LetTup([(m.get(v) if isinstance(m.get(v), str) else v) for v in it.vars_], [subst_expr(e, m) for e in it.es])
     if isinstance(it, Let):
         r = m.get(it.var)
         return Let(r if isinstance(r, str) else it.var, subst_expr(it.e, m))
@@ -138,6 +150,11 @@ def item_idents(it, acc):
                 ev(a.e)
     elif isinstance(it, If):
         ev(it.e)
+    elif isinstance(it, LetTup):
+        for v in it.vars_:
+            acc.add(v)
+        for e in it.es:
+            ev(e)
     elif isinstance(it, (Let, IfLet, For)):
         acc.add(it.var)
         ev(it.e)
@@ -323,7 +340,12 @@ def gen_macro_program(rng, dom=4):
                     locs.remove(l)
             elif kind == 'let':
                 l = fresh_local()
-                body.append(Let(l, Bin('+', some_var(), K(rng.randrange(dom)), dom)))
+                if rng.random() < 0.4:
+                    l2 = fresh_local()
+                    body.append(LetTup([l, l2], [Bin('+', some_var(), K(rng.randrange(dom)), dom), some_var()]))
+                    bound_locs.append(l2)
+                else:
+                    body.append(Let(l, Bin('+', some_var(), K(rng.randrange(dom)), dom)))
                 bound_locs.append(l)
             elif kind == 'iflet':
                 l = fresh_local()
